@@ -448,6 +448,9 @@ pub fn pipe(sh: &Shared, e: &Sexp) -> Option<Ob> {
     ("from_iter", _) => observables::from_iter(a.iter().map(parse_data).collect::<Option<Vec<_>>>()?.into_iter()),
     // the same items through an iterator ADAPTOR (size_hint lower bound 0, not ExactSizeIterator, lazily evaluated)
     ("from_iter_lazy", _) => observables::from_iter(a.iter().map(parse_data).collect::<Option<Vec<_>>>()?.into_iter().filter(|_| true)),
+    // ENDLESS iterators (from_iter / start_with pull from them only while the subscription lives)
+    ("from_iter_endless", 1) => observables::from_iter(std::iter::repeat(parse_data(&a[0])?)),
+    ("start_with_endless", 2) => last()?.start_with(std::iter::repeat(parse_data(&a[0])?)),
     ("range", 2) => observables::range(a[0].int()?, a[1].int()?).map(V::int),
     ("empty", 0) => observables::empty(),
     ("never", 0) => observables::never(),
@@ -555,6 +558,24 @@ pub fn pipe(sh: &Shared, e: &Sexp) -> Option<Ob> {
         move || s3.rec(format!("t{}:c", tag)),
       )
     }
+    // a tap whose item / error side effect ENDS subscription K (a user closure between two operators that ends the
+    // subscription while the event is in flight: the operators downstream of it act for a subscription that is over)
+    ("tap_unsub", 3) => {
+      let tag = a[0].nat()?;
+      let k = a[1].nat()?;
+      let (s1, s2, s3) = (sh.clone(), sh.clone(), sh.clone());
+      last()?.tap(
+        move |x: V| {
+          s1.rec(format!("t{}:n{}", tag, x.show()));
+          user_unsub(&s1, k);
+        },
+        move |e| {
+          s2.rec(format!("t{}:e{}", tag, err_id(&e)));
+          user_unsub(&s2, k);
+        },
+        move || s3.rec(format!("t{}:c", tag)),
+      )
+    }
     ("merge", _) => pipe(sh, &a[0])?.merge(&pipes(sh, &a[1..])?),
     ("concat", _) => pipe(sh, &a[0])?.concat(&pipes(sh, &a[1..])?),
     ("zip", _) => pipe(sh, &a[0])?.zip(&pipes(sh, &a[1..])?).map(V::list),
@@ -584,6 +605,35 @@ pub fn pipe(sh: &Shared, e: &Sexp) -> Option<Ob> {
     ("on_error_resume_next", 2) => {
       let f = parse_rs(sh, &a[0])?;
       last()?.on_error_resume_next(move |e| f(e))
+    }
+    // the closure GIVEN TO the operator ends subscription K when it is called, then answers as usual: the operator
+    // goes on (attaches the inner / next attempt / replacement) for a subscription that ended inside its own closure
+    ("flat_map_u", 3) => {
+      let k = a[0].nat()?;
+      let f = parse_fm(sh, &a[1])?;
+      let sh2 = sh.clone();
+      last()?.flat_map(move |x| {
+        user_unsub(&sh2, k);
+        f(x)
+      })
+    }
+    ("retry_when_u", 3) => {
+      let k = a[0].nat()?;
+      let f = parse_epred(&a[1])?;
+      let sh2 = sh.clone();
+      last()?.retry_when(move |e| {
+        user_unsub(&sh2, k);
+        f(e)
+      })
+    }
+    ("on_error_resume_next_u", 3) => {
+      let k = a[0].nat()?;
+      let f = parse_rs(sh, &a[1])?;
+      let sh2 = sh.clone();
+      last()?.on_error_resume_next(move |e| {
+        user_unsub(&sh2, k);
+        f(e)
+      })
     }
     // ---- threaded / timed operators (concurrent harness only; time is the facade's virtual clock) ----
     ("tsrc", _) => {
